@@ -311,6 +311,10 @@ type ShardResult struct {
 	Inconclusive int64               `json:"inconclusive"`
 	Done         bool                `json:"done"`
 
+	// CountOnly switches Distinct from hashing to counting (bulk enumerations whose
+	// cases are distinct by construction); not part of the result
+	CountOnly string `json:"-"`
+
 	hashSet map[uint64]struct{}
 	setSets map[string]map[string]struct{}
 }
@@ -322,8 +326,16 @@ func NewShardResult() *ShardResult {
 
 func (s *ShardResult) Count(name string, n int64) { s.Counters[name] += n }
 
-// Distinct records a non-trivial case by hash.
+// Distinct records a non-trivial case by hash. When CountOnly is set the case is known
+// to be distinct by construction and only counted ("-" = known duplicate: not counted).
 func (s *ShardResult) Distinct(h uint64) {
+	if s.CountOnly == "-" {
+		return
+	}
+	if s.CountOnly != "" {
+		s.Counters[s.CountOnly]++
+		return
+	}
 	if s.hashSet == nil {
 		s.hashSet = map[uint64]struct{}{}
 	}
